@@ -22,6 +22,7 @@ import (
 	"errors"
 	"strings"
 	"sync"
+	"sync/atomic"
 	"syscall"
 	"time"
 )
@@ -41,6 +42,8 @@ type server struct {
 	opts        *options
 	onQuit      func(err error)
 	connections sync.Map // key=fd, value=connection
+	closing     int32    // set by Close: nothing is accepted any more
+	accepting   int32    // accepts in flight: connections that are not in the map yet
 }
 
 // Run this server.
@@ -60,11 +63,14 @@ func (s *server) Run() (err error) {
 
 // Close this server with deadline.
 func (s *server) Close(ctx context.Context) error {
+	atomic.StoreInt32(&s.closing, 1)
 	s.operator.Control(PollDetach)
 	s.ln.Close()
 
 	for {
-		activeConn := 0
+		// The poller may be inside OnRead with a connection that it has accepted but not stored yet:
+		// the walk below cannot see it, so it counts as active until it is in the map.
+		activeConn := int(atomic.LoadInt32(&s.accepting))
 		s.connections.Range(func(key, value interface{}) bool {
 			conn, ok := value.(gracefulExit)
 			if !ok || conn.isIdle() {
@@ -97,6 +103,11 @@ func (s *server) Close(ctx context.Context) error {
 
 // OnRead implements FDOperator.
 func (s *server) OnRead(p Poll) error {
+	atomic.AddInt32(&s.accepting, 1)
+	defer atomic.AddInt32(&s.accepting, -1)
+	if atomic.LoadInt32(&s.closing) != 0 {
+		return nil
+	}
 	// accept socket
 	conn, err := s.ln.Accept()
 	if err == nil {
